@@ -23,6 +23,8 @@ from rules import stackrt
 
 LEVEL = "other"
 VERIF = os.path.dirname(os.path.dirname(os.path.abspath(__file__)))
+from bfsa.heap import Unsupported
+
 E = "register_crypto_plugin.ecdsa."
 OIDS = json.load(open(os.path.join(VERIF, "spec", "oids.json")))
 DISCHARGE = json.load(open(os.path.join(VERIF, "spec", "discharge.json")))
@@ -113,6 +115,47 @@ def exc_rules(prog, chk, pid):
     chk.assume("numbertheory and point arithmetic are summarised as raising only numbertheory.Error; arithmetic operators are treated as total (ZeroDivisionError from explicit curve parameters with p = 0 is a recorded blind spot)")
     chk.assume("Edwards-curve code paths (PointEdwards, CurveEdTw, eddsa, _from_edwards) are excluded by the property and summarised as not raising")
     return an
+
+
+DER_TAGS = {"remove_sequence": {0x30}, "remove_integer": {0x02}, "remove_octet_string": {0x04}, "remove_object": {0x06}, "remove_bitstring": {0x03},
+            "remove_constructed": set(range(0xA0, 0xC0))}
+
+
+def der_tag_rules(prog, chk, pid, only=None):
+    """each DER primitive accepts exactly its own identifier octet(s): the function is interpreted (concrete control, nothing executed) on <tag> 01 <content> for every tag value
+    0..255 -- the complete domain of the first octet -- and must return for the documented tag(s) and raise for every other one.  A decoder that looks at part of the
+    identifier only (constructed bit and tag number but not the class bits) accepts 0x70 / 0xB0 / 0xF0 for a SEQUENCE: a signature with a flipped bit still verifies."""
+    from bfsa.exprs import sbytes as _sb
+
+    P = lambda s_: "%s.%s" % (pid, s_)
+    for name, want in sorted(DER_TAGS.items()):
+        if only is not None and name not in only:
+            continue
+        q = E + "der." + name
+        if q not in prog.funcs:
+            raise AnalysisError("DER primitive %s not found" % name)
+        fi = prog.funcs[q]
+        accepted = set()
+        undecided = []
+        for tag in range(256):
+            ex = Exec(prog, policy=lambda e, f, d: (f.module is fi.module or f.module.name.endswith("._compat")) and d < 6)
+            ex.sym_bytes = True
+            # content: one byte that is a valid INTEGER / OID / BIT STRING body (01); for a bit string 00 01 (no unused bits)
+            body = [C(0), C(1)] if name == "remove_bitstring" else [C(1)]
+            data = _sb([C(tag), C(len(body))] + body)
+            try:
+                res = ex.run(fi, args={fi.params[0]: data})
+            except Unsupported as u:
+                undecided.append((tag, str(u)))
+                continue
+            if not res.dead and res.ret is not None:
+                accepted.add(tag)
+        if undecided:
+            raise AnalysisError("%s not interpretable for tag 0x%02X: %s" % (name, undecided[0][0], undecided[0][1][:100]))
+        extra, missing = sorted(accepted - want), sorted(want - accepted)
+        chk.require(not extra and not missing, P("der-identifier-octet"), q, "accepted identifier octets of %s" % name, "%s:%d" % (fi.file, fi.lineno),
+                    "of the 256 possible first octets exactly %s is accepted" % (", ".join("0x%02X" % t for t in sorted(want)) if len(want) < 4 else "0xA0..0xBF"),
+                    ("also accepts %s" % ", ".join("0x%02X" % t for t in extra[:6]) if extra else "") + ("; rejects %s" % ", ".join("0x%02X" % t for t in missing[:6]) if missing else ""))
 
 
 def sibling_rules(prog, chk, pid):
@@ -582,6 +625,7 @@ def run(prog, chk, tier):
                        "compatibility is not decided.")
     exc_rules(prog, chk, "C19")
     sibling_rules(prog, chk, "C19")
+    der_tag_rules(prog, chk, "C19")
     trailing_data_rules(prog, chk, "C19")
     const_rules(prog, chk, "C19")
     point_encoding_rules(prog, chk, "C19")
